@@ -1141,6 +1141,22 @@ class Engine:
             self.index_safety(st, ref, idxs[-1], line, (), what="store")
             if isinstance(val, Ref):
                 raise Unsupported("array-valued store")
+            ho_ = st.heap[ref.base]
+            if ho_.kind == "arr" and ho_.elem == "int" and is_z3(val) and z3.is_real(val):
+                # numpy casts a float stored into an integer array by truncation: modelled only for integral values
+                # (obligation), for which the cast is exact
+                from pyvc import externals
+                externals.USED.add("a float stored into an integer numpy array is proved integral, then stored exactly")
+                wit = (getattr(self.contract, "int_witness", None) or {}).get(self.cur_src)
+                if wit is not None:     # ghost witness: the integer the stored float is equal to
+                    w = to_z3(self.evc(wit, st))
+                    self.emit("%s.safety.integral_store(%s)" % (self.fn_key.split("::")[-1], self.cur_src), "safety", st,
+                              val == z3.ToReal(w), line, (), note="float stored into an int array equals the integer witness")
+                    val = w
+                else:
+                    self.emit("%s.safety.integral_store(%s)" % (self.fn_key.split("::")[-1], self.cur_src), "safety", st,
+                              z3.IsInt(val), line, (), note="float stored into an int array is a whole number")
+                    val = z3.ToInt(val)
             self.store(st, ref, [idxs[-1]], val)
         elif isinstance(target, ast.Attribute):
             obj = self.ev(target.value, st)
